@@ -144,6 +144,7 @@ type vfAct struct {
 
 type vfE1 struct {
 	Cfg     [2]vfSideCfg `json:"cfg"`
+	WDelayUs [2]int `json:"wdelay,omitempty"` // every transport Write of that side takes this long (microseconds)
 	Mode    string       `json:"mode,omitempty"` // "" client/server, "cc" both clients, "snap"
 	First   int          `json:"first,omitempty"`
 	StartMs int          `json:"startoff,omitempty"` // offset of the second side's start
@@ -274,6 +275,9 @@ type vfSim struct {
 func newVfSim(t *testing.T, sc *vfE1, verbose bool) *vfSim {
 	s := &vfSim{t: t, sc: sc, o: newVfOrch(), rnd: &vfRand{}}
 	s.net = newVfNet(s.o)
+	for i := 0; i < 2; i++ {
+		s.net.conns[i].writeDelay = time.Duration(sc.WDelayUs[i]) * time.Microsecond
+	}
 	if verbose {
 		s.buf = &vfBufLF{start: s.net.start}
 		s.lf = s.buf
